@@ -34,7 +34,7 @@ META = dict(
                 "embeddings. Length scales 1e-12..1e6 enter through the embeddings only. Not compared (not stated by the "
                 "property): unit, validity, component labels of the results."),
     technique=("TLA+ array model (Cells.tla, C06.tla) + TLC exhaustive; spec states replayed into code; code traces "
-               "validated by TLC (C06Trace.tla)"),
+               "validated by TLC (C06Trace.tla); Apalache inductive invariant of the 1-d core for lines of any length (C06Core.tla)"),
     design_ref="DESIGN.md section 7 C06",
 )
 
@@ -522,6 +522,9 @@ def run_traces(ctx, df, ntraces, embs):
 # ------------------------------------------------------------------ entry points
 def run(ctx):
     df = core.import_library()
+    # the integer core (spec/C06Core.tla): Apalache discharges the inductive invariant for lines of any length
+    from .. import apalache
+    apalache.run_stage(ctx, module="C06Core.tla", claim=apalache.C06_CLAIM)
     embs = embs_for(ctx.tier, ctx.seed)
     r = ctx.model("MC_C06", f"C06_{ctx.tier}.cfg", dump=True)
     if r.ok:
